@@ -47,7 +47,7 @@ Rep(s, n) == IF n = 0 THEN <<>>
              ELSE s \o Rep(s, n - 1)
 RepSep(s, sep, n) == IF n = 0 THEN <<>> ELSE s \o Rep(sep \o s, n - 1)
 
-FamilyNames == {"parens", "preds", "steps", "dsteps", "unions", "minus", "deeppred", "args", "parenpath", "ors", "filters"}
+FamilyNames == {"parens", "preds", "steps", "dsteps", "unions", "minus", "deeppred", "selfpred", "args", "parenpath", "ors", "filters"}
 Member(fam, n) ==
   CASE fam = "parens"    -> Rep(Cp("("), n) \o Cp("1") \o Rep(Cp(")"), n)                   \* ((((1))))
     [] fam = "parenpath" -> Rep(Cp("("), n) \o Cp("//") \o Cp("b") \o Rep(Cp(")"), n)       \* ((((//b))))
@@ -57,6 +57,8 @@ Member(fam, n) ==
     [] fam = "unions"    -> RepSep(Cp("//") \o Cp("b"), Cp("|"), n)                         \* //b|//b|...
     [] fam = "minus"     -> Rep(Cp("-"), n) \o Cp("1")                                      \* ----1
     [] fam = "deeppred"  -> Rep(Cp("*") \o Cp("["), n) \o Cp("1") \o Rep(Cp("]"), n)        \* *[*[*[1]]]
+    \* predicates nested in predicates that all HOLD (a nested child step on a shallow document stops at once)
+    [] fam = "selfpred"  -> Cp("/") \o Cp("*") \o Rep(Cp("[") \o Cp("self") \o Cp("::") \o Cp("*"), n) \o Rep(Cp("]"), n)   \* /*[self::*[self::*[...]]]
     [] fam = "args"      -> Rep(Cp("string") \o Cp("("), n) \o Cp("1") \o Rep(Cp(")"), n)   \* string(string(1))
     [] fam = "ors"       -> RepSep(Cp("1"), Cp("sp") \o Cp("or") \o Cp("sp"), n)            \* 1 or 1 or ...
     [] fam = "filters"   -> Rep(Cp("("), n) \o Cp("//") \o Cp("b") \o Rep(Cp(")") \o Cp("[") \o Cp("1") \o Cp("]"), n)  \* (((//b)[1])[1])
